@@ -30,7 +30,7 @@ func init() {
 		Run:    runDeterminism,
 		// the host-clock probes only mean something if operations that read the oracle exchange rate succeeded on the
 		// timestamps written in the probe phase (generator side)
-		RequireTotals: map[string]int64{"probe-phase-priced-ops-ok": 1, "priced-bind-ok": 1, "priced-call-ok": 1},
+		RequireTotals: aliveTotals(map[string]int64{"probe-phase-priced-ops-ok": 1}),
 		RaceCases: func(t string) []int {
 			if t == "thorough" {
 				return []int{16}
